@@ -271,7 +271,7 @@ func (w *World) Step(ctrl, id string) StepResult {
 	func() {
 		defer func() {
 			if r := recover(); r != nil {
-				res.Panic = fmt.Sprint(r)
+				res.Panic = notePanic(r)
 			}
 		}()
 		result, err := w.recs[ctrl].Reconcile(w.controllerID(ctrl, id))
@@ -373,4 +373,9 @@ func (w *World) Canon() string {
 	}
 	b.WriteString("\n#conns " + w.conns.Canon())
 	return b.String()
+}
+
+// newGnmiServerWithConns builds a gNMI server like the world's but with another connection manager.
+func newGnmiServerWithConns(w *World, conns sb.ConnManager) *nbgnmi.Server {
+	return nbgnmi.NewServerForVerif(w.topo, w.txs, w.props, w.cfgs, w.reg, conns, w.cfg.SetSizeLimit)
 }
